@@ -3329,15 +3329,19 @@ func (t *transport) RoundTrip(hc *HostClient, req *Request, resp *Response) (ret
 	if customStreamBody && resp.bodyStream != nil {
 		rbs := resp.bodyStream
 		var closed atomic.Bool
-		resp.bodyStream = newCloseReaderWithError(rbs, func(wErr error) error {
+		er := &eofReader{Reader: rbs}
+		resp.bodyStream = newCloseReaderWithError(er, func(wErr error) error {
 			if !closed.CompareAndSwap(false, true) {
 				return nil
 			}
 			hc.ReleaseReader(br)
+			// The connection can't be reused if a part of the body is still unread.
+			unread := false
 			if r, ok := rbs.(*requestStream); ok {
+				unread = !er.eof.Load()
 				releaseRequestStream(r)
 			}
-			if closeConn || resp.ConnectionClose() || wErr != nil {
+			if closeConn || resp.ConnectionClose() || wErr != nil || unread {
 				hc.CloseConn(cc)
 			} else {
 				hc.ReleaseConn(cc)
@@ -3354,4 +3358,19 @@ func (t *transport) RoundTrip(hc *HostClient, req *Request, resp *Response) (ret
 		hc.ReleaseConn(cc)
 	}
 	return false, nil
+}
+
+// eofReader records whether the wrapped reader has been read until io.EOF.
+type eofReader struct {
+	io.Reader
+
+	eof atomic.Bool
+}
+
+func (r *eofReader) Read(p []byte) (int, error) {
+	n, err := r.Reader.Read(p)
+	if err == io.EOF {
+		r.eof.Store(true)
+	}
+	return n, err
 }
